@@ -818,7 +818,9 @@ def run_c10(job):
         if r[0] == 'ok' and r[1].n_subsets.value >= 2 and safe(lambda: enc.process(r[1].subset([0]), wire_template_data=False))[0] == 'ok':
             multi.append((f, data))
     if quick:
-        multi = multi[::max(1, len(multi) // 4)][:4]
+        # the files with the most subsets (sparse selections need room) plus a spread of the others
+        multi.sort(key=lambda fd: -dec.process(fd[1]).n_subsets.value)
+        multi = multi[:2] + multi[2::max(1, len(multi) // 3)][:2]
     for f, data in multi:
         check(data, os.path.basename(f), {'file': f})
     return t.result()
